@@ -73,11 +73,7 @@ Proof.
   rewrite !map_nth. exact He.
 Qed.
 
-Section WF.
-  Variable cfg : config.
-  Hypothesis Hwf : wf_cfg cfg.
-
-  Lemma wf_parts :
+  Lemma wf_parts (cfg : config) (Hwf : wf_cfg cfg) :
     NoDup (concat (map mc_claims (cfg_machs cfg))) /\
     NoDup (map mc_mac (cfg_machs cfg)) /\
     forallb (fun mc => (mc_mac mc <? BROADCAST_MAC)%N) (cfg_machs cfg) = true /\
@@ -92,31 +88,31 @@ Section WF.
   Qed.
 
   (* claimed addresses are distinct: an address has at most one owner *)
-  Lemma owner_unique o1 o2 ip :
+  Lemma owner_unique (cfg : config) (Hwf : wf_cfg cfg) o1 o2 ip :
     (o1 < n_machs cfg)%nat -> (o2 < n_machs cfg)%nat ->
     In ip (claims_of cfg o1) -> In ip (claims_of cfg o2) -> o1 = o2.
   Proof.
-    destruct wf_parts as (H1 & _). unfold n_machs, claims_of, mconf_of.
+    destruct (wf_parts cfg Hwf) as (H1 & _). unfold n_machs, claims_of, mconf_of.
     intros. eapply (NoDup_concat_nth mc_claims mc_default); eauto.
   Qed.
 
-  Lemma mac_inj o1 o2 :
+  Lemma mac_inj (cfg : config) (Hwf : wf_cfg cfg) o1 o2 :
     (o1 < n_machs cfg)%nat -> (o2 < n_machs cfg)%nat -> mac_of cfg o1 = mac_of cfg o2 -> o1 = o2.
   Proof.
-    destruct wf_parts as (_ & H2 & _). unfold n_machs, mac_of, mconf_of.
+    destruct (wf_parts cfg Hwf) as (_ & H2 & _). unfold n_machs, mac_of, mconf_of.
     intros. eapply (NoDup_map_nth mc_mac mc_default); eauto.
   Qed.
 
-  Lemma mac_not_broadcast o : (o < n_machs cfg)%nat -> (mac_of cfg o <? BROADCAST_MAC)%N = true.
+  Lemma mac_not_broadcast (cfg : config) (Hwf : wf_cfg cfg) o : (o < n_machs cfg)%nat -> (mac_of cfg o <? BROADCAST_MAC)%N = true.
   Proof.
-    destruct wf_parts as (_ & _ & H3 & _). unfold n_machs, mac_of, mconf_of. intros Ho.
+    destruct (wf_parts cfg Hwf) as (_ & _ & H3 & _). unfold n_machs, mac_of, mconf_of. intros Ho.
     rewrite forallb_forall in H3. apply H3. apply nth_In. exact Ho.
   Qed.
 
-  Lemma pre_claimed o ip x :
+  Lemma pre_claimed (cfg : config) (Hwf : wf_cfg cfg) o ip x :
     pre_lookup (mc_pre (mconf_of cfg o)) ip = Some x -> (o < n_machs cfg)%nat /\ In ip (claims_of cfg o).
   Proof.
-    destruct wf_parts as (_ & _ & _ & H4). unfold pre_lookup. intros H.
+    destruct (wf_parts cfg Hwf) as (_ & _ & _ & H4). unfold pre_lookup. intros H.
     destruct (find _ _) as [e|] eqn:Hf; [|discriminate].
     apply find_some in Hf. destruct Hf as [Hin He]. apply N.eqb_eq in He.
     assert (Ho : (o < n_machs cfg)%nat).
@@ -128,7 +124,6 @@ Section WF.
     specialize (H4 (nth_In _ _ Ho)). rewrite forallb_forall in H4.
     specialize (H4 e Hin). apply existsb_eqb_In in H4. unfold claims_of, mconf_of. subst ip. exact H4.
   Qed.
-End WF.
 
 (* ------------------------------------------------------------------ the target rule *)
 
@@ -1612,3 +1607,309 @@ Lemma cached_failure_origin cfg s m ip :
   exists rid r t, st_res s rid = Some r /\ r_mach r = m /\ r_dest r = ip /\
                   r_phase r = PDone SFailed t CBudget.
 Proof. intros Hwf Hre. exact (inv_d _ _ (Inv_reachable _ _ Hwf Hre) m ip). Qed.
+
+(* ------------------------------------------------------------------ same answer for concurrent resolvers *)
+
+(* weaker hypothesis, aimed at concurrency: a packet of an address may overwrite a cached
+   failure, but not while a resolver of that address is still waiting on that machine *)
+Definition waiting_on (s : state) (m : nat) (D : N) (rid : N) : bool :=
+  match st_res s rid with
+  | Some r =>
+      match r_phase r with
+      | PWait _ _ => Nat.eqb (r_mach r) m && (r_dest r =? D)%N
+      | PDone _ _ _ => false
+      end
+  | None => false
+  end.
+
+Definition late_answer_to_waiter (s : state) (l : label) : bool :=
+  match l with
+  | LDeliver p m =>
+      match ms_table (st_machs s m) (pk_sip p) with
+      | Some SFailed => existsb (waiting_on s m (pk_sip p)) (st_rids s)
+      | _ => false
+      end
+  | _ => false
+  end.
+
+Fixpoint no_late_answer_to_waiter (cfg : config) (s : state) (tr : list (Z * label)) : Prop :=
+  match tr with
+  | [] => True
+  | x :: tr' =>
+      late_answer_to_waiter s (snd x) = false /\
+      match step cfg s x with Ok s' => no_late_answer_to_waiter cfg s' tr' | _ => True end
+  end.
+
+Definition is_wait (s : state) (rid : N) (m : nat) (D : N) : Prop :=
+  exists r k dl, st_res s rid = Some r /\ r_mach r = m /\ r_dest r = D /\ r_phase r = PWait k dl.
+Definition is_done (s : state) (rid : N) (m : nat) (D : N) (st : status) : Prop :=
+  exists r t c, st_res s rid = Some r /\ r_mach r = m /\ r_dest r = D /\ r_phase r = PDone st t c.
+
+Definition pairQ (s : state) (rid1 rid2 : N) (m : nat) (D : N) : Prop :=
+  (exists st, is_done s rid1 m D st /\ is_done s rid2 m D st) \/
+  (exists st, ms_table (st_machs s m) D = Some st /\
+     (is_wait s rid1 m D \/ is_done s rid1 m D st) /\ (is_wait s rid2 m D \/ is_done s rid2 m D st) /\
+     (is_wait s rid1 m D \/ is_wait s rid2 m D)) \/
+  (ms_table (st_machs s m) D = None /\ is_wait s rid1 m D /\ is_wait s rid2 m D).
+
+Lemma is_wait_frame s s' rid m D : st_res s' rid = st_res s rid -> is_wait s rid m D -> is_wait s' rid m D.
+Proof. intros E (r & k & dl & H). exists r, k, dl. rewrite E. exact H. Qed.
+Lemma is_done_frame s s' rid m D st : st_res s' rid = st_res s rid -> is_done s rid m D st -> is_done s' rid m D st.
+Proof. intros E (r & t & c & H). exists r, t, c. rewrite E. exact H. Qed.
+
+Lemma pairQ_exists s rid1 rid2 m D :
+  pairQ s rid1 rid2 m D -> st_res s rid1 <> None /\ st_res s rid2 <> None.
+Proof.
+  assert (W : forall rid, is_wait s rid m D -> st_res s rid <> None)
+    by (intros rid (r & k & dl & H & _); congruence).
+  assert (Dn : forall rid st, is_done s rid m D st -> st_res s rid <> None)
+    by (intros rid st (r & t & c & H & _); congruence).
+  intros [(st & H1 & H2)|[(st & _ & H1 & H2 & _)|(_ & H1 & H2)]]; split; eauto;
+    try (destruct H1; eauto); try (destruct H2; eauto).
+Qed.
+
+Lemma pairQ_frame s s' rid1 rid2 m D :
+  st_res s' rid1 = st_res s rid1 -> st_res s' rid2 = st_res s rid2 ->
+  ms_table (st_machs s' m) D = ms_table (st_machs s m) D ->
+  pairQ s rid1 rid2 m D -> pairQ s' rid1 rid2 m D.
+Proof.
+  intros E1 E2 Et.
+  pose proof (is_wait_frame s s' rid1 m D E1) as W1. pose proof (is_wait_frame s s' rid2 m D E2) as W2.
+  pose proof (fun st => is_done_frame s s' rid1 m D st E1) as D1.
+  pose proof (fun st => is_done_frame s s' rid2 m D st E2) as D2.
+  intros [(st & H1 & H2)|[(st & Ht & H1 & H2 & H3)|(Ht & H1 & H2)]].
+  - left. exists st. auto.
+  - right. left. exists st. rewrite Et. split; [exact Ht|].
+    split; [destruct H1; auto|]. split; [destruct H2; auto|]. destruct H3; auto.
+  - right. right. rewrite Et. auto.
+Qed.
+
+Lemma waiting_on_true s rid m D : is_wait s rid m D -> waiting_on s m D rid = true.
+Proof.
+  intros (r & k & dl & Hr & Hm & Hd & Hp). unfold waiting_on. rewrite Hr, Hp, Hm, Hd.
+  rewrite Nat.eqb_refl, N.eqb_refl. reflexivity.
+Qed.
+
+Lemma wait_not_done s rid m D st : is_wait s rid m D -> is_done s rid m D st -> False.
+Proof. intros (r & k & dl & Hr & _ & _ & Hp) (r' & t & c & Hr' & _ & _ & Hp'). congruence. Qed.
+
+Lemma is_done_intro s rid r m D st t c :
+  st_res s rid = Some r -> r_mach r = m -> r_dest r = D -> r_phase r = PDone st t c -> is_done s rid m D st.
+Proof. intros. exists r, t, c. auto. Qed.
+Lemma is_wait_intro s rid r m D k dl :
+  st_res s rid = Some r -> r_mach r = m -> r_dest r = D -> r_phase r = PWait k dl -> is_wait s rid m D.
+Proof. intros. exists r, k, dl. auto. Qed.
+
+Lemma pairQ_step cfg s x s' rid1 rid2 m D :
+  wf_cfg cfg -> (ARP_SIZE <= cfg_mtu cfg)%N -> Inv cfg s -> rid1 <> rid2 ->
+  late_answer_to_waiter s (snd x) = false -> step cfg s x = Ok s' ->
+  pairQ s rid1 rid2 m D -> pairQ s' rid1 rid2 m D.
+Proof.
+  intros Hwf Hmtu [HA HB _ _] Hne Hlate Hstep HQ. destruct x as [t l]. cbn [snd] in Hlate.
+  destruct (pairQ_exists _ _ _ _ _ HQ) as [Hex1 Hex2].
+  apply step_shape_ok in Hstep. destruct Hstep as [_ Hsh].
+  destruct l as [m0 ip0|m0 ip0 sn|m0 rid0 p slot|rid0|p m0|p m0|p m0]; cbn [step_shape] in Hsh.
+  - destruct Hsh as (_ & _ & ->). apply (pairQ_frame s); auto. unfold set_mach. cbn [st_machs].
+    machs_at m m0; [rewrite listen_table|]; reflexivity.
+  - destruct Hsh as (_ & _ & ->). apply (pairQ_frame s); auto. unfold set_mach. cbn [st_machs].
+    machs_at m m0; reflexivity.
+  - destruct Hsh as (_ & _ & Hfresh & Hsh). unfold start_shape in Hsh. cbv zeta in Hsh.
+    destruct Hsh as (ph & net' & -> & _). apply (pairQ_frame s); cbn [st_res st_machs].
+    + apply upd_other. congruence.
+    + apply upd_other. congruence.
+    + machs_at m m0; [rewrite listen_table|]; reflexivity.
+    + exact HQ.
+  - (* poll *)
+    unfold poll_shape in Hsh. destruct Hsh as (r0 & k & dl & Hr0 & Hph & Hsh). cbv zeta in Hsh.
+    destruct Hsh as (ph & ms' & net' & Es & Hcases).
+    assert (Hother : forall rid, rid <> rid0 -> st_res s' rid = st_res s rid).
+    { intros rid Hn. subst s'. cbn [st_res]. apply upd_other. exact Hn. }
+    assert (Hself : st_res s' rid0 = Some (mkRes (r_mach r0) (r_pair r0) (r_sub r0) (r_dest r0) (r_born r0) ph)).
+    { subst s'. cbn [st_res]. apply upd_same. }
+    assert (Htab : st_machs s' (r_mach r0) = ms' /\ forall m1, m1 <> r_mach r0 -> st_machs s' m1 = st_machs s m1).
+    { subst s'. cbn [st_machs]. split; [apply updn_same | intros; apply updn_other; assumption]. }
+    destruct Htab as [Htab1 Htab2].
+    (* the table entry (m, D) changes only by the final timeout of a resolver of (m, D) *)
+    assert (Hsame : ~ (r_mach r0 = m /\ r_dest r0 = D /\ ph = PDone SFailed t CBudget) ->
+                    ms_table (st_machs s' m) D = ms_table (st_machs s m) D).
+    { intros Hn. destruct (Nat.eq_dec m (r_mach r0)) as [Em|Em]; [|rewrite Htab2 by exact Em; reflexivity].
+      subst m. rewrite Htab1.
+      destruct Hcases as [(st' & _ & _ & -> & _)|[(_ & _ & _ & _ & _ & -> & _)|[(_ & _ & _ & _ & _ & -> & _)|(_ & _ & _ & Ep & -> & _)]]];
+        try reflexivity.
+      cbn [fail_mac ms_table]. apply upd_other. intros Ed. apply Hn. auto. }
+    destruct (N.eq_dec rid0 rid1) as [E1|N1]; [|destruct (N.eq_dec rid0 rid2) as [E2|N2]].
+    + (* rid1 is polled *)
+      subst rid0. assert (N2 : rid2 <> rid1) by congruence.
+      pose proof (Hother rid2 N2) as O2.
+      assert (W1 : is_wait s rid1 m D).
+      { destruct HQ as [(st & (r & t1 & c1 & Hr & _ & _ & Hp) & _)|[(st & _ & [H|(r & t1 & c1 & Hr & _ & _ & Hp)] & _)|(_ & H & _)]];
+          try exact H; congruence. }
+      destruct W1 as (r1 & k1 & dl1 & Hr1 & Hm1 & Hd1 & Hp1). rewrite Hr0 in Hr1. inversion Hr1; subst r1.
+      destruct HQ as [(st & H1 & _)|[(st & Ht & _ & H2 & _)|(Ht & _ & H2)]].
+      * exfalso. eapply wait_not_done; [|exact H1]. exists r0, k, dl. auto.
+      * (* table has st: rid1 returns st *)
+        rewrite <- Hm1, <- Hd1 in Ht.
+        destruct Hcases as [(st' & Htab & Ep & Ems & _)|[(Htab & _)|[(Htab & _)|(Htab & _)]]]; try congruence.
+        rewrite Ht in Htab. inversion Htab; subst st'.
+        assert (D1 : is_done s' rid1 m D st).
+        { eapply is_done_intro; [exact Hself|exact Hm1|exact Hd1|exact Ep]. }
+        assert (Et : ms_table (st_machs s' m) D = Some st).
+        { rewrite Hsame; [rewrite <- Hm1, <- Hd1; exact Ht|]. intros (_ & _ & E). rewrite Ep in E. discriminate. }
+        destruct H2 as [W2|D2].
+        -- right. left. exists st. split; [exact Et|]. split; [right; exact D1|].
+           split; [left; eapply is_wait_frame; eauto|]. right. eapply is_wait_frame; eauto.
+        -- left. exists st. split; [exact D1|]. eapply is_done_frame; eauto.
+      * (* table empty: a timeout of rid1 *)
+        rewrite <- Hm1, <- Hd1 in Ht.
+        destruct Hcases as [(st' & Htab & _)|[(_ & _ & _ & Hlt & _)|[(_ & _ & _ & _ & Ep & Ems & _)|(_ & _ & _ & Ep & Ems & _)]]];
+          try congruence; try (unfold ARP_SIZE in *; lia).
+        -- right. right. split.
+           ++ rewrite Hsame; [rewrite <- Hm1, <- Hd1; exact Ht|]. intros (_ & _ & E). rewrite Ep in E. discriminate.
+           ++ split; [|eapply is_wait_frame; eauto].
+              eapply is_wait_intro; [exact Hself|exact Hm1|exact Hd1|exact Ep].
+        -- right. left. exists SFailed. split.
+           ++ rewrite <- Hm1, Htab1, Ems, <- Hd1. cbn [fail_mac ms_table]. apply upd_same.
+           ++ split; [right; eapply is_done_intro; [exact Hself|exact Hm1|exact Hd1|exact Ep]|].
+              split; [left; eapply is_wait_frame; eauto|]. right. eapply is_wait_frame; eauto.
+    + (* rid2 is polled *)
+      subst rid0. pose proof (Hother rid1 Hne) as O1.
+      assert (W2 : is_wait s rid2 m D).
+      { destruct HQ as [(st & _ & (r & t1 & c1 & Hr & _ & _ & Hp))|[(st & _ & _ & [H|(r & t1 & c1 & Hr & _ & _ & Hp)] & _)|(_ & _ & H)]];
+          try exact H; congruence. }
+      destruct W2 as (r2 & k2 & dl2 & Hr2 & Hm2 & Hd2 & Hp2). rewrite Hr0 in Hr2. inversion Hr2; subst r2.
+      destruct HQ as [(st & _ & H2)|[(st & Ht & H1 & _ & _)|(Ht & H1 & _)]].
+      * exfalso. eapply wait_not_done; [|exact H2]. exists r0, k, dl. auto.
+      * rewrite <- Hm2, <- Hd2 in Ht.
+        destruct Hcases as [(st' & Htab & Ep & Ems & _)|[(Htab & _)|[(Htab & _)|(Htab & _)]]]; try congruence.
+        rewrite Ht in Htab. inversion Htab; subst st'.
+        assert (D2 : is_done s' rid2 m D st).
+        { eapply is_done_intro; [exact Hself|exact Hm2|exact Hd2|exact Ep]. }
+        assert (Et : ms_table (st_machs s' m) D = Some st).
+        { rewrite Hsame; [rewrite <- Hm2, <- Hd2; exact Ht|]. intros (_ & _ & E). rewrite Ep in E. discriminate. }
+        destruct H1 as [W1|D1].
+        -- right. left. exists st. split; [exact Et|]. split; [left; eapply is_wait_frame; eauto|].
+           split; [right; exact D2|]. left. eapply is_wait_frame; eauto.
+        -- left. exists st. split; [eapply is_done_frame; eauto|exact D2].
+      * rewrite <- Hm2, <- Hd2 in Ht.
+        destruct Hcases as [(st' & Htab & _)|[(_ & _ & _ & Hlt & _)|[(_ & _ & _ & _ & Ep & Ems & _)|(_ & _ & _ & Ep & Ems & _)]]];
+          try congruence; try (unfold ARP_SIZE in *; lia).
+        -- right. right. split.
+           ++ rewrite Hsame; [rewrite <- Hm2, <- Hd2; exact Ht|]. intros (_ & _ & E). rewrite Ep in E. discriminate.
+           ++ split; [eapply is_wait_frame; eauto|].
+              eapply is_wait_intro; [exact Hself|exact Hm2|exact Hd2|exact Ep].
+        -- right. left. exists SFailed. split.
+           ++ rewrite <- Hm2, Htab1, Ems, <- Hd2. cbn [fail_mac ms_table]. apply upd_same.
+           ++ split; [left; eapply is_wait_frame; eauto|].
+              split; [right; eapply is_done_intro; [exact Hself|exact Hm2|exact Hd2|exact Ep]|].
+              left. eapply is_wait_frame; eauto.
+    + (* a third resolver is polled *)
+      assert (O1 : st_res s' rid1 = st_res s rid1) by (apply Hother; congruence).
+      assert (O2 : st_res s' rid2 = st_res s rid2) by (apply Hother; congruence).
+      destruct (Nat.eq_dec (r_mach r0) m) as [Em|Em];
+        [destruct (N.eq_dec (r_dest r0) D) as [Ed|Ed]|];
+        try (apply (pairQ_frame s); auto; apply Hsame; intros (? & ? & ?); contradiction).
+      destruct Hcases as [(st' & _ & Ep & _)|[(_ & _ & _ & _ & Ep & _)|[(_ & _ & _ & _ & Ep & _)|(Htab & _ & _ & Ep & Ems & _)]]];
+        try (apply (pairQ_frame s); auto; apply Hsame; intros (_ & _ & E); rewrite Ep in E; discriminate).
+      rewrite Em, Ed in Htab.
+      assert (Et : ms_table (st_machs s' m) D = Some SFailed).
+      { rewrite <- Em, Htab1, Ems, <- Ed. cbn [fail_mac ms_table]. apply upd_same. }
+      destruct HQ as [(st & H1 & H2)|[(st & Ht & _)|(_ & H1 & H2)]].
+      * left. exists st. split; eapply is_done_frame; eauto.
+      * congruence.
+      * right. left. exists SFailed. split; [exact Et|].
+        split; [left; eapply is_wait_frame; eauto|]. split; [left; eapply is_wait_frame; eauto|].
+        left. eapply is_wait_frame; eauto.
+  - (* deliver *)
+    destruct Hsh as (net' & Hrm & ->). apply remove1_In in Hrm. destruct Hrm as [Hin _].
+    destruct (ia_net _ _ HA _ _ Hin) as [Htr _].
+    assert (Hchg : ~ (m0 = m /\ pk_sip p = D) ->
+              ms_table (updn (st_machs s) m0 (fst (demux cfg m0 (st_machs s m0) p)) m) D = ms_table (st_machs s m) D).
+    { intros Hn. destruct (Nat.eq_dec m m0) as [Em|Em]; [|rewrite updn_other by exact Em; reflexivity].
+      subst m0. rewrite updn_same, demux_state. cbn [set_mac ms_table]. apply upd_other. intros Ed. apply Hn. auto. }
+    destruct (Nat.eq_dec m0 m) as [Em|Em]; [destruct (N.eq_dec (pk_sip p) D) as [Ed|Ed]|];
+      try (apply (pairQ_frame s); auto; cbn [st_machs]; apply Hchg; intros (? & ?); contradiction).
+    subst m0 D.
+    assert (Et : forall net, ms_table (st_machs (mkSt t (updn (st_machs s) m (fst (demux cfg m (st_machs s m) p)))
+                                       (st_res s) (st_rids s) net) m) (pk_sip p) = Some (SOk (pk_smac p))).
+    { intros net. cbn [st_machs]. rewrite updn_same, demux_state. cbn [set_mac ms_table]. apply upd_same. }
+    destruct HQ as [(st & H1 & H2)|[(st & Ht & H1 & H2 & H3)|(Ht & H1 & H2)]].
+    + left. exists st. split; eapply is_done_frame; eauto.
+    + assert (Est : st = SOk (pk_smac p)).
+      { destruct st as [mac|].
+        - f_equal. eapply truthful_unique; eauto. eapply ia_table; eauto.
+        - exfalso. cbn [late_answer_to_waiter] in Hlate. rewrite Ht in Hlate.
+          assert (Hw : exists rid, In rid (st_rids s) /\ waiting_on s m (pk_sip p) rid = true).
+          { destruct H3 as [W|W]; [exists rid1|exists rid2]; (split; [|apply waiting_on_true; exact W]);
+              destruct W as (r & ? & ? & Hr & _); eapply ib_rids; eauto. }
+          destruct Hw as (rid & Hi & Hw).
+          assert (existsb (waiting_on s m (pk_sip p)) (st_rids s) = true)
+            by (apply existsb_exists; exists rid; auto).
+          congruence. }
+      subst st. right. left. exists (SOk (pk_smac p)). split; [apply Et|].
+      split; [destruct H1; [left; eapply is_wait_frame; eauto | right; eapply is_done_frame; eauto]|].
+      split; [destruct H2; [left; eapply is_wait_frame; eauto | right; eapply is_done_frame; eauto]|].
+      destruct H3; [left|right]; eapply is_wait_frame; eauto.
+    + right. left. exists (SOk (pk_smac p)). split; [apply Et|].
+      split; [left; eapply is_wait_frame; eauto|]. split; [left; eapply is_wait_frame; eauto|].
+      left. eapply is_wait_frame; eauto.
+  - destruct Hsh as (net' & _ & ->). apply (pairQ_frame s); auto.
+  - destruct Hsh as (net' & _ & ->). apply (pairQ_frame s); auto.
+Qed.
+
+Lemma pairQ_run cfg tr : forall s s' rid1 rid2 m D,
+  wf_cfg cfg -> (ARP_SIZE <= cfg_mtu cfg)%N -> Inv cfg s -> rid1 <> rid2 ->
+  no_late_answer_to_waiter cfg s tr -> run cfg s tr = Ok s' ->
+  pairQ s rid1 rid2 m D -> pairQ s' rid1 rid2 m D.
+Proof.
+  induction tr as [|x tr IH]; intros s s' rid1 rid2 m D Hwf Hmtu HI Hne Hn Hrun HQ;
+    cbn [run no_late_answer_to_waiter] in *.
+  - inversion Hrun; subst. exact HQ.
+  - destruct Hn as [Hl Hn]. destruct (step cfg s x) as [s1| | |] eqn:Hs; cbn [bind] in Hrun; try discriminate.
+    apply (IH s1 s' rid1 rid2 m D Hwf Hmtu); auto.
+    + eapply Inv_step; eauto.
+    + eapply pairQ_step; eauto.
+Qed.
+
+(* two resolvers of one address on one machine that are waiting at the same moment finish with
+   the same answer, provided no packet of that address overwrites a cached failure while a
+   resolver of it is still waiting there *)
+Lemma same_answer_concurrent cfg sa tr s rid1 rid2 m D st1 st2 :
+  wf_cfg cfg -> (ARP_SIZE <= cfg_mtu cfg)%N -> reachable cfg sa -> rid1 <> rid2 ->
+  is_wait sa rid1 m D -> is_wait sa rid2 m D ->
+  run cfg sa tr = Ok s -> no_late_answer_to_waiter cfg sa tr ->
+  is_done s rid1 m D st1 -> is_done s rid2 m D st2 -> st1 = st2.
+Proof.
+  intros Hwf Hmtu Hre Hne W1 W2 Hrun Hn D1 D2.
+  pose proof (Inv_reachable _ _ Hwf Hre) as HI.
+  assert (HQ : pairQ sa rid1 rid2 m D).
+  { destruct (ms_table (st_machs sa m) D) as [st|] eqn:Ht.
+    - right. left. exists st. auto.
+    - right. right. auto. }
+  pose proof (pairQ_run cfg tr sa s rid1 rid2 m D Hwf Hmtu HI Hne Hn Hrun HQ) as HQ'.
+  assert (Hfun : forall rid a b, is_done s rid m D a -> is_done s rid m D b -> a = b).
+  { intros rid a b (r & t & c & Hr & _ & _ & Hp) (r' & t' & c' & Hr' & _ & _ & Hp'). congruence. }
+  destruct HQ' as [(st & H1 & H2)|[(st & _ & _ & _ & [W|W])|(_ & W & _)]].
+  - rewrite (Hfun _ _ _ D1 H1), (Hfun _ _ _ D2 H2). reflexivity.
+  - exfalso. eapply wait_not_done; eauto.
+  - exfalso. eapply wait_not_done; eauto.
+  - exfalso. eapply wait_not_done; eauto.
+Qed.
+
+(* the hypotheses of same_answer_concurrent are satisfiable: after the first four labels of the
+   recorded run both resolvers are waiting; the rest of the run has no late answer to a waiter *)
+Lemma concurrent_hypotheses_satisfiable :
+  exists sa s,
+    run wcfg_subnet (init wcfg_subnet) (firstn 4 wtrace_agree) = Ok sa /\
+    is_wait sa 1%N 0%nat 167772162%N /\ is_wait sa 2%N 0%nat 167772162%N /\
+    run wcfg_subnet sa (skipn 4 wtrace_agree) = Ok s /\
+    no_late_answer_to_waiter wcfg_subnet sa (skipn 4 wtrace_agree) /\
+    is_done s 1%N 0%nat 167772162%N (SOk 1) /\ is_done s 2%N 0%nat 167772162%N (SOk 1).
+Proof.
+  eexists. eexists.
+  split; [vm_compute; reflexivity|].
+  split; [eexists _, _, _; vm_compute; repeat split|].
+  split; [eexists _, _, _; vm_compute; repeat split|].
+  split; [vm_compute; reflexivity|].
+  split; [vm_compute; repeat split|].
+  split; eexists _, _, _; vm_compute; repeat split.
+Qed.
